@@ -53,17 +53,14 @@ Proof. intros H. induction n as [|n IH]; cbn [repeat_str lf_count]; [reflexivity
 Lemma lf_count_rev s : lf_count (rev s) = lf_count s.
 Proof. induction s as [|c s IH]; [reflexivity|]. cbn [rev lf_count]. rewrite lf_count_app, IH. cbn [lf_count]. lia. Qed.
 
-Lemma linebreak_nl : is_linebreak c_nl = true.
-Proof. vm_compute. reflexivity. Qed.
-
-(* str.splitlines() never leaves a line feed inside a line *)
-Lemma splitlines_aux_nolf : forall n s cur, length s <= n ->
-  lf_count cur = 0 -> Forall (fun l => lf_count l = 0) (splitlines_aux s cur).
+(* splitting at CR / LF / CRLF never leaves a line feed inside a line *)
+Lemma split_crlf_aux_nolf : forall n s cur, length s <= n ->
+  lf_count cur = 0 -> Forall (fun l => lf_count l = 0) (split_crlf_aux s cur).
 Proof.
-  induction n as [|n IH]; intros s cur Hn Hc; destruct s as [|c s']; cbn [splitlines_aux length] in *; try lia.
+  induction n as [|n IH]; intros s cur Hn Hc; destruct s as [|c s']; cbn [split_crlf_aux length] in *; try lia.
   - destruct cur; constructor; [|constructor]. rewrite lf_count_rev. exact Hc.
   - destruct cur; constructor; [|constructor]. rewrite lf_count_rev. exact Hc.
-  - destruct (is_linebreak c) eqn:Hb.
+  - destruct (((c =? c_cr) || (c =? c_nl))%N) eqn:Hb.
     + destruct s' as [|c2 s''].
       * constructor; [rewrite lf_count_rev; exact Hc|constructor].
       * destruct ((c =? c_cr)%N && (c2 =? c_nl)%N).
@@ -73,11 +70,11 @@ Proof.
            cbn [length] in *. lia.
     + apply IH; [lia|].
       cbn [lf_count]. destruct (c =? c_nl)%N eqn:E; [|lia].
-      apply N.eqb_eq in E. subst c. rewrite linebreak_nl in Hb. discriminate.
+      rewrite orb_true_r in Hb. discriminate.
 Qed.
 
-Lemma splitlines_nolf s : Forall (fun l => lf_count l = 0) (splitlines s).
-Proof. apply (splitlines_aux_nolf (length s)); [lia|reflexivity]. Qed.
+Lemma split_crlf_nolf s : Forall (fun l => lf_count l = 0) (split_crlf s).
+Proof. apply (split_crlf_aux_nolf (length s)); [lia|reflexivity]. Qed.
 
 (* ---------------------------------------------------------------- Part A: any option strings *)
 (* over the event list as stored: most recent first *)
@@ -321,8 +318,8 @@ Qed.
 
 Lemma lf_push_string f o s : fmt_lf f -> stream_lf o -> stream_lf (os_push_string f o s).
 Proof.
-  intros Hf H. unfold os_push_string. pose proof (splitlines_nolf s) as Hl.
-  destruct (splitlines s) as [|l0 ls]; [exact H|].
+  intros Hf H. unfold os_push_string. pose proof (split_crlf_nolf s) as Hl.
+  destruct (split_crlf s) as [|l0 ls]; [exact H|].
   inversion Hl as [|x y H0 Hls]; subst.
   assert (G : forall ls o', Forall (fun l => lf_count l = 0) ls -> stream_lf o' ->
               stream_lf (fold_left (fun o'' l => os_push (os_push_newline f o'' (Some None)) l) ls o')).
